@@ -268,10 +268,14 @@ def classify_exc(e):
     return "Py:Other"
 
 
+UNMODELLED = {"accepted": 0, "refused": 0}      # inputs on which the model answers Unmodelled: what the implementation did with them (reported in the evidence)
+
+
 def exn_refines(model_line, impl_line):
     """Refinement on outcomes (DESIGN 2.4): model OK <-> impl OK with equal payload; model Lib -> impl
     Lib (class compared only by callers that ask); model Py -> impl Py or Lib; Unmodelled -> anything."""
     if model_line.startswith("ERR Unmodelled"):
+        UNMODELLED["accepted" if impl_line.startswith("OK") else "refused"] += 1
         return True
     if model_line.startswith("OK"):
         return model_line == impl_line
@@ -358,7 +362,7 @@ def finish(chk, ob, br, trusted_base, assumptions, rule, checker_cmd):
                 stale += 1
                 chk.violation("a result returned earlier reads differently after later calls (results share state with later calls or with the caller's buffers)",
                               f"stale-result {type(r).__name__}", {"result_type": type(r).__name__, "when_returned": line[:600], "at_the_end": now_line[:600]})
-        chk.notes.append({"kept_results_rechecked": len(_impl.KEPT)})
+        chk.notes.append({"kept_results_rechecked": len(_impl.KEPT), "model_answered_unmodelled": dict(UNMODELLED)})
         del _impl.KEPT[:]
     except Exception:
         pass
